@@ -535,8 +535,8 @@ def body_degrees(case, ctx):
         ctx.close(tag + ": degrees = radians * 180/pi", np.array(td)[fin],
                   (np.array(tr) * 180.0 / math.pi)[fin], rtol=1e-13, atol=1e-12)
         ctx.check(np.array_equal(np.array(tdef), np.array(td), equal_nan=True), tag + ": default unit of angle is degrees")
-        ctx.check(np.all(np.abs(np.array(tr)) <= TWO_PI + 1e-9), "radians within [-2pi,2pi]",
-                  thetas=tr)
+        ctx.check(np.all(np.abs(np.array(tr)[fin]) <= TWO_PI + 1e-9),
+                  "radians within [-2pi,2pi]", thetas=tr)
     # same clause for horocyclic arcs
     arc_case = case.get("arc")
     if arc_case:
@@ -702,7 +702,7 @@ def body_horosphere(case, ctx):
         # the Poincare radius |u-x|^2 / (2(1-u.x)) is a quotient of two small numbers when
         # the reference is close to the ideal centre; u carries ~1e-8 of sqrt noise
         xp = H.klein_to_poincare(x)
-        condt = 5e-9 / float(np.sum((u - xp) ** 2))
+        condt = 2e-8 / float(np.sum((u - xp) ** 2))
         tol = (1e-6 * (1 + r0) + condt) * scale
         d = float(np.sqrt(np.sum((xm - c) ** 2)))
         ctx.small("reference point on the sphere", d - r, tol, unit=i, centre=c, radius=r)
@@ -793,7 +793,7 @@ def body_horoarc(case, ctx):
             m1, m2 = H.poincare_to_halfspace(p1), H.poincare_to_halfspace(p2)
             scale = hs_size(um, m1, m2)
             c0, r0 = C.horosphere_halfspace(um[:-1], m1)
-        condt = 5e-9 / float(np.sum((u - p1) ** 2))
+        condt = 2e-8 / float(np.sum((u - p1) ** 2))
         tol = (1e-6 * (1 + r0) + condt) * scale
         ctx.small("horocycle radius vs closed form", r - r0, tol, unit=i, got=r, want=r0)
         ctx.small("horocycle centre vs closed form", c - c0, tol, unit=i, got=c, want=c0)
